@@ -681,3 +681,53 @@ func verifC05_close_vs_compress() {
 	vAssertGhost(vGhostPoolViolations() == 0, "C05.pool.compressor-not-pooled-while-in-use")
 	vObserve("c05cvc", len(t.out))
 }
+
+// C05.stale-race: the io.WriteCloser of a finished message is used again (it must fail: C02.stale-writer) while another
+// goroutine writes the next message. "No data race occurs inside the library": whatever the stale call reads must be
+// ordered with what the new message's writer sets up. The engine's happens-before analysis reports an unordered pair of
+// accesses on any path that executes both, so one sequential schedule per variant is enough; the counterexample is
+// confirmed natively under the Go race detector.
+func verifC05_stale_race() {
+	client := vParam("client", 1) == 1
+	vInstallRand()
+	t := vNewTransport(nil)
+	t.endMode = vEndBlock
+	c := vNewConn(t, client, vCopts(vParam("deflate", 0)), 16, 64)
+	w, err := c.Writer(vBG, MessageText)
+	vAssert(err == nil, "C05.stale-race.setup")
+	_, err = w.Write(vBytes("a", 1))
+	vAssert(err == nil, "C05.stale-race.setup")
+	vAssert(w.Close() == nil, "C05.stale-race.setup")
+	staleClose := vChoose("staleOp", 2) == 1
+	done := make(chan error, 1)
+	go func() {
+		ctx, cancel := context.WithTimeout(vBG, time.Second)
+		defer cancel()
+		if vParam("streamed", 0) == 1 {
+			w2, err := c.Writer(ctx, MessageBinary)
+			if err == nil {
+				_, err = w2.Write([]byte{1})
+				if err == nil {
+					err = w2.Close()
+				}
+			}
+			done <- err
+			return
+		}
+		done <- c.Write(ctx, MessageBinary, []byte{1})
+	}()
+	var serr error
+	if staleClose {
+		serr = w.Close()
+	} else {
+		_, serr = w.Write([]byte{2})
+	}
+	vAssert(serr != nil, "C05.stale-race.stale-call-fails")
+	vAssert(<-done == nil, "C05.stale-race.fresh-write-succeeds")
+	vReach("C05.stale-race.done")
+	frames, ok := vParseWritten(t.out)
+	good, inMsg, n := vWireSequenceOK(frames, client)
+	vAssert(ok && good && !inMsg && n == 2, "C05.stale-race.wire")
+	c.CloseNow()
+	vObserve("c05stale", len(t.out))
+}
